@@ -126,9 +126,9 @@ func (m *model) admission(sz uint64) (fits bool, victims []string) {
 	return true, victims
 }
 
-// fifoVictims is what a queue ordered by completion time only (ignoring Open
-// and un-ban) would evict for the same request; used to label cases in which
-// the LRU discipline is actually distinguishable.
+// fifoOrder is the order a queue sorted by completion time only (ignoring Open
+// and un-ban) would have; used to label cases in which the LRU discipline is
+// actually distinguishable from first-in-first-out.
 func (m *model) fifoOrder() []string {
 	out := append([]string(nil), m.lru...)
 	sort.SliceStable(out, func(i, j int) bool { return m.blobs[out[i]].seq < m.blobs[out[j]].seq })
@@ -350,7 +350,7 @@ func (m *model) cleanValidate(target int, respect bool, deleted map[string]bool)
 	u, b := m.cleanCategories()
 	if p, done := stage("unbanned incomplete", u, 2); p != "" || done {
 		if p == "" && len(rest) > 0 {
-			p = "banned blob deleted although earlier classes sufficed"
+			p = "blob banned from eviction deleted although the earlier classes sufficed"
 		}
 		return p, stages
 	}
